@@ -96,3 +96,57 @@ package utils
 //@   loop 1 invariant 0 <= i && i <= len && len == (bl.count + 7) / 8 && len(result) == len && fresh(result)
 //@   loop 1 invariant forall a int, k int :: 0 <= a && a < i && 0 <= k && k < 8 ==> (((result[a] >> (7-k)) & 1) == 1) == bl.model[8*a+k]
 //@   loop 1 decreases len - i
+
+// ---------------------------------------------------------------- base1DCode (C11, C14)
+
+//@ func (*base1DCode).Content
+//@   requires c != nil
+//@   ensures result == c.content
+
+//@ func (*base1DCode).Metadata
+//@   requires c != nil
+//@   ensures result.CodeKind == c.kind && result.Dimensions == 1
+
+//@ func (*base1DCode).ColorModel
+//@   requires c != nil
+//@   ensures result == c.color.Model
+
+//@ func (*base1DCode).ColorScheme
+//@   requires c != nil
+//@   ensures result == c.color
+
+//@ func (*base1DCode).Bounds
+//@   requires c != nil && c.BitList != nil
+//@   requires#rep inv(c.BitList)
+//@   ensures result.Min.X == 0 && result.Min.Y == 0 && result.Max.X == c.BitList.count && result.Max.Y == 1
+
+//@ func (*base1DCode).At
+//@   requires c != nil && c.BitList != nil && 0 <= x && x < c.BitList.count
+//@   requires#rep inv(c.BitList)
+//@   ensures result == (c.BitList.model[x] ? c.color.Foreground : c.color.Background)
+
+//@ func (*base1DCodeIntCS).CheckSum
+//@   requires c != nil
+//@   ensures result == c.checksum
+
+//@ func New1DCodeIntCheckSum
+//@   ensures typeis(result, "*base1DCodeIntCS") && fresh(result)
+//@   ensures asptr(result, "*base1DCodeIntCS").checksum == checksum && asptr(result, "*base1DCodeIntCS").base1DCode.BitList == bars
+//@   ensures asptr(result, "*base1DCodeIntCS").base1DCode.kind == codeKind && asptr(result, "*base1DCodeIntCS").base1DCode.content == content
+//@   ensures asptr(result, "*base1DCodeIntCS").base1DCode.color == barcode.ColorScheme16
+
+//@ func New1DCodeIntCheckSumWithColor
+//@   ensures typeis(result, "*base1DCodeIntCS") && fresh(result)
+//@   ensures asptr(result, "*base1DCodeIntCS").checksum == checksum && asptr(result, "*base1DCodeIntCS").base1DCode.BitList == bars
+//@   ensures asptr(result, "*base1DCodeIntCS").base1DCode.kind == codeKind && asptr(result, "*base1DCodeIntCS").base1DCode.content == content
+//@   ensures asptr(result, "*base1DCodeIntCS").base1DCode.color == color
+
+//@ func New1DCode
+//@   ensures typeis(result, "*base1DCode") && fresh(result)
+//@   ensures asptr(result, "*base1DCode").BitList == bars && asptr(result, "*base1DCode").kind == codeKind
+//@   ensures asptr(result, "*base1DCode").content == content && asptr(result, "*base1DCode").color == barcode.ColorScheme16
+
+//@ func New1DCodeWithColor
+//@   ensures typeis(result, "*base1DCode") && fresh(result)
+//@   ensures asptr(result, "*base1DCode").BitList == bars && asptr(result, "*base1DCode").kind == codeKind
+//@   ensures asptr(result, "*base1DCode").content == content && asptr(result, "*base1DCode").color == color
